@@ -193,7 +193,7 @@ func c01World(t *testing.T, r *simcore.Run) any {
 	// ---- configuration
 	intervals := []time.Duration{time.Millisecond, 10 * time.Millisecond, time.Second, 16 * time.Second, time.Minute, time.Hour}
 	interval := intervals[tp.Intn(len(intervals), "interval")]
-	drift := []float64{1e-3, 1e-4, 2e-5, 1e-6}[tp.Intn(4, "drift")]
+	drift := []float64{1e-3, 1e-4, 2e-5, 1e-6, 5e-7, 1e-8}[tp.Intn(6, "drift")]
 	if float64(interval)*drift < 2 {
 		drift = 1e-3
 	}
@@ -217,7 +217,9 @@ func c01World(t *testing.T, r *simcore.Run) any {
 	badKind := ""
 	if tp.Bool(1, 8, "inadmissible") {
 		admissible = false
-		switch tp.Intn(8, "badkind") {
+		switch tp.Intn(9, "badkind") {
+		case 8:
+			cfg.ReferenceClockImpact, badKind = -1.25, "ref factor < 0"
 		case 0:
 			cfg.ReferenceClockImpact, badKind = 1.0, "ref factor = 1"
 		case 1:
@@ -237,6 +239,24 @@ func c01World(t *testing.T, r *simcore.Run) any {
 		default:
 			cfg.SyncTimeout, badKind = interval, "timeout = interval"
 		}
+	}
+	// In a third of the runs the settings take the way they take in production: as the numbers
+	// of the configuration file through timeservice.go's syncConfig (where an absent or zero
+	// setting means "default"; such settings are not sent this way here).
+	if tp.Bool(1, 3, "viawiring") && cfg.ReferenceClockImpact != 0 && cfg.PeerClockImpact != 0 && cfg.PeerClockCutoff != 0 &&
+		cfg.SyncTimeout != 0 && cfg.SyncInterval != 0 {
+		in := cfg
+		cfg = Root.SyncConfigFrom(in.ReferenceClockImpact, in.PeerClockImpact, in.PeerClockCutoff.Seconds(), in.SyncTimeout.Seconds(), in.SyncInterval.Seconds())
+		if cfg.SyncInterval > 0 {
+			interval = cfg.SyncInterval
+		}
+		rulesOK := cfg.ReferenceClockImpact > 1 && cfg.PeerClockImpact-cfg.ReferenceClockImpact > 1 && cfg.SyncInterval > 0 && cfg.SyncTimeout <= cfg.SyncInterval/2
+		negative := in.ReferenceClockImpact < 0 || in.PeerClockImpact < 0 || in.SyncInterval < 0
+		admissible = rulesOK && !negative
+		if !admissible && badKind == "" {
+			badKind = "settings after their conversion from the configuration file's seconds"
+		}
+		r.Probe("config-via-wiring")
 	}
 	nref := tp.Intn(8, "nref")
 	npeer := tp.Intn(8, "npeer")
